@@ -17,7 +17,7 @@ import sys
 import tempfile
 from fractions import Fraction
 
-from core import Result, ddmin
+from core import history_probe, Result, ddmin
 from gen import g3
 
 OPTION_NAMES = ["ignore_occupancy", "ignore_autoclashes", "nucleic_acid_only", "require_same_atom_name", "enable_molprobity_mode"]
@@ -447,6 +447,7 @@ def run(ctx):
     _CASES = cases
     jobs = [(ci, o) for ci, c in enumerate(cases) for o in c[3]]
     impls = par(real_find, jobs)
+    history_probe(ctx, res, real_find, jobs, "find_clashes", describe=lambda j: {"case": _CASES[j[0]][0], "options": j[1]})
     impl_of = {job: impl for job, impl in zip(jobs, impls)}
     reqs, what = [], []
     zero_of = {}
